@@ -327,6 +327,32 @@ def answer_waiting_at_expiry():
     return out
 
 
+def engine_survives_unknown_tables():
+    """the spa names a config revision for which no table module is shipped (newer firmware): the handshake cannot go
+    on, but no exception leaves the engine's loop, whatever arrives afterwards, and later requests are still sent"""
+    from .c18 import _FilesPeer
+    out = []
+    for (pname, c, l) in (("inXM", 77, 9), ("inYT", 50, 999), ("NoSuchPack", 1, 1)):
+        rec = {"kind": "unknown-tables", "files": f"{pname}_C{c:02}.xml/{pname}_S{l:02}.xml", "escaped": "", "pings_after": 0}
+        with contextlib.redirect_stdout(io.StringIO()):
+            with ThreadedSession(peer=_FilesPeer(pname, c, l)) as s:
+                try:
+                    for _ in range(400):
+                        s.pump(1, dt=0.05)
+                    n0 = len(s.sock.wire)
+                    # (the ping thread's next ping: the engine still serves the send queue)
+                    from geckolib.config import GeckoConfig
+                    for _ in range(int((GeckoConfig.PING_FREQUENCY_IN_SECONDS + 5) / 0.05)):
+                        s.pump(1, dt=0.05)
+                    rec["pings_after"] = sum(1 for (_, d, _) in s.sock.wire[n0:] if (inner(d) or b"").startswith(b"APING"))
+                except env.MachineryError:
+                    raise
+                except Exception as e:  # noqa
+                    rec["escaped"] = type(e).__name__
+        out.append(rec)
+    return out
+
+
 def engine_iteration_order():
     """the sub-steps the REAL _thread_func performs in one pass, with and without a datagram waiting:
     the model's phase cycle is send -> recv -> loop -> cleanup (-> sub-class hook) in every iteration"""
@@ -473,6 +499,10 @@ def run(ctx):
         ev.cov.setdefault("answer_waiting_at_expiry", []).append(xr)
         if not xr["answered"] or xr["transmissions_after_removal"] > 0:
             ctx.violation({"clause": "transmission-after-the-request-was-answered-and-removed"}, xr)
+    for xr in engine_survives_unknown_tables():
+        ev.cov.setdefault("unknown_tables", []).append(xr)
+        if xr["escaped"] or xr["pings_after"] < 1:
+            ctx.violation({"clause": "handler-exception-stops-the-engine", "where": "handshake with unknown tables"}, xr)
     rec = engine_survives_can_handle_exception()
     if rec["escaped"] or not rec["dispatched_after"]:
         ctx.violation({"clause": "handler-exception-stops-the-engine", "where": "can_handle"}, rec)
